@@ -332,6 +332,15 @@ Proof.
   - rewrite Z.add_0_l. apply Z.div_le_mono; lia.
 Qed.
 
+Lemma new_block_fits c p last size :
+  0 < c_gran c -> 0 <= p -> 0 < c_bsize c -> 1 <= size ->
+  let g := pool_gran c p in
+  (if c_pad c then size + g else size) <= ideal_block_size c p last size /\
+  (if c_pad c then 1 else 0) + (size + g - 1) / g <= (ideal_block_size c p last size + g - 1) / g.
+Proof.
+  intros Hg Hp Hb Hs g. split; [apply ideal_block_size_ge; assumption|apply new_area_fits; assumption].
+Qed.
+
 (* ------------------------------------------------------------------ alloc preserves the invariant *)
 Lemma set_pool_length ps p x : length (set_pool ps p x) = length ps.
 Proof. apply upd_nth_length. Qed.
